@@ -182,6 +182,8 @@ def tensor_method(it, tv, name, args, kwargs, node):
         ax = _axis(args[0] if args else kwargs.get("dim"), rank, extra=1)
         if ax is None:
             raise Unsupported("unsqueeze with unknown axis", node, it.site(node))
+        if rank is None and ax == 0:
+            ax = "front"  # position 0 is known whatever the rank
         new_shape = None
         if shape is not None:
             p = ax + rank + 1
